@@ -113,6 +113,12 @@ theorem step_no_bug (p : P) (h : Inv p) (op : Op) (hv : handlesValid p op = true
     · split
       · split <;> simp
       · simp
+  | addKernelMapping a b c d =>
+    simp only [step]
+    split
+    · split <;> simp
+    · simp
+  | removeKernelMapping a => simp [step]
   | removeMapping a b => simp only [step]; split <;> simp
   | clearMappings a => simp only [step]; split <;> simp
   | string s => simp [step]
